@@ -125,7 +125,16 @@ func (e *c08ex) Exec(op string) string {
 			return "err"
 		}
 		b := e.a.ExecIDs(id)
-		if b.Resp == nil || b.Resp.TxResponses[0].GetError() != nil {
+		if b.Resp == nil {
+			return "err"
+		}
+		failed := b.Resp.TxResponses[0].GetError() != nil
+		if n := len(b.Resp.GetCreatedSwaps()); failed && n != 0 {
+			e.flag("failed_begin_announced", "a swapBegin that failed is listed in CreatedSwaps of the batch reply (the robot would answer it on the other channel)")
+		} else if !failed && n != 1 {
+			e.flag("begun_not_announced", fmt.Sprintf("a successful swapBegin is announced %d times in CreatedSwaps", n))
+		}
+		if failed {
 			return "err"
 		}
 		return "ok"
